@@ -98,13 +98,19 @@ def check_property(prop_id, tier, seed):
         ok_model, log_model, t_model, cmd_model = core.coq_make(mod.MODEL_TARGETS)
         ok_prop, log_prop, t_prop, cmd_prop = (False, '', 0.0, '')
         if ok_model:
-            ok_prop, log_prop, t_prop, cmd_prop = core.coq_make([mod.PROP_TARGET])
+            extra_props = list(getattr(mod, 'EXTRA_PROPS', []))      # further Props files audited with this property (e.g. 'C02EndToEnd')
+            ok_prop, log_prop, t_prop, cmd_prop = core.coq_make([mod.PROP_TARGET] + [f'theories/Props/{x}.vo' for x in extra_props])
         # 4. audit
         bad_vernac = core.audit_sources()
         assum_ok, assum, assum_out = (False, [], '')
         if ok_prop:
             assum_ok, assum, assum_out = core.props_assumptions(prop_id)
-        obligations = max(len(assum), count_print_assumptions(prop_id))
+            for x in extra_props:
+                ok_x, assum_x, out_x = core.props_assumptions(x)
+                assum_ok = assum_ok and ok_x
+                assum = assum + assum_x
+                assum_out += out_x
+        obligations = max(len(assum), count_print_assumptions(prop_id) + sum(count_print_assumptions(x) for x in getattr(mod, 'EXTRA_PROPS', [])))
         bad_axioms = []
         discharged = 0
         for thm, axs in assum:
